@@ -399,7 +399,7 @@ class Models(object):
             ch_best = f.chi_squared(source.valid, residual, log_error, weight, model)
 
             # Remove extended objects
-            if type(self.extended) == np.ndarray:
+            if isinstance(self.extended, np.ndarray):
                 reset = np.any(self.extended[:, :, source.valid > 0], axis=2)
                 ch_best[reset] = np.inf
 
